@@ -1,9 +1,11 @@
 //! C17 correspondence harness: the grpc-web CLIENT layer of tonic-web.
 //! The real `GrpcWebClientService` wraps a scripted inner service; the `GrpcWebCall` response
-//! body it returns is polled frame by frame.  Every case is checked by a direct oracle (what the
-//! property demands, computed from the frames and trailers that were ENCODED by this harness,
-//! never from the model) and is also evaluated by the Coq model (`obs_client`).
-use bytes::Bytes;
+//! body it returns is polled frame by frame (kinds without `stack`), or read by the real
+//! `tonic::client::Grpc` (kinds `*stack*`: what the caller of a generated client sees).  Every case
+//! is checked by a direct oracle (what the property demands, computed from the frames, trailers
+//! and statuses that were ENCODED by this harness, never from the model) and is also evaluated by
+//! the Coq model (`obs_client_x`, `obs_client_hyper_x`, `obs_stack`).
+use bytes::{Buf, BufMut, Bytes};
 use http::{HeaderMap, HeaderName, HeaderValue, Request, Response, Version};
 use http_body::{Body as HttpBody, Frame};
 use serde_json::{json, Value};
@@ -12,6 +14,8 @@ use std::pin::Pin;
 use std::sync::atomic::{AtomicUsize, Ordering};
 use std::sync::{Arc, Mutex};
 use std::task::{Context, Poll};
+use tonic::codec::{Codec, DecodeBuf, Decoder, EncodeBuf, Encoder};
+use tonic::Status;
 use tonic_web::{GrpcWebCall, GrpcWebClientService};
 use tower_service::Service;
 use vcommon::body::{spin, Ev, ScriptBody};
@@ -79,6 +83,12 @@ impl CountBody {
 impl HttpBody for CountBody {
     fn is_end_stream(&self) -> bool {
         self.eos()
+    }
+    /// the wrapped body knows its length exactly (like a hyper body with a content-length):
+    /// a GrpcWebCall that forwarded this hint would be caught (its DATA is shorter)
+    fn size_hint(&self) -> http_body::SizeHint {
+        let n: usize = self.inner.evs.iter().map(|e| if let Ev::Data(d) = e { d.len() } else { 0 }).sum();
+        http_body::SizeHint::with_exact(n as u64)
     }
     type Data = Bytes;
     type Error = InnerErr;
@@ -213,6 +223,8 @@ fn classify(code: i32, msg: &str) -> Item {
         Item::Err(2, Some(n))
     } else if msg.starts_with("tonic-web: unexpected EOF, incomplete frame") {
         Item::Err(3, None)
+    } else if msg.starts_with("tonic-web: unexpected EOF, missing trailers") {
+        Item::Err(8, None)
     } else if msg.starts_with("tonic-web: inner-error") {
         Item::Err(4, None)
     } else if msg.starts_with("trailers couldn't parse value") {
@@ -226,11 +238,23 @@ fn classify(code: i32, msg: &str) -> Item {
     }
 }
 
+type Hint = (u64, Option<u64>);
+fn hint_of(h: http_body::SizeHint) -> Hint {
+    (h.lower(), h.upper())
+}
+fn hint_tr(h: &Hint) -> Tr {
+    Tr::L(vec![Tr::n(h.0), Tr::opt(h.1.map(Tr::n))])
+}
 struct Observed {
     items: Vec<Item>,
     extra: Vec<Item>,
     polls: usize,
     ends: usize,
+    /// Body::size_hint before the first poll and after the last one
+    hint0: Hint,
+    hint1: Hint,
+    /// (hint, DATA bytes still delivered after it) before every poll of the drain
+    hints: Vec<(Hint, usize)>,
 }
 impl Observed {
     fn tr(&self) -> Tr {
@@ -239,6 +263,8 @@ impl Observed {
             Tr::L(self.extra.iter().map(|i| i.tr()).collect()),
             Tr::n(self.polls as u64),
             Tr::n(self.ends as u64),
+            hint_tr(&self.hint0),
+            hint_tr(&self.hint1),
         ])
     }
 }
@@ -305,6 +331,9 @@ fn run_client(evs: &[E]) -> Observed {
     let ends = Arc::new(AtomicUsize::new(0));
     let mut items: Vec<Item> = vec![];
     let mut extra: Vec<Item> = vec![];
+    let mut hint0: Hint = (u64::MAX, None);
+    let mut hint1: Hint = (u64::MAX, None);
+    let mut hints_at: Vec<(Hint, usize)> = vec![];
     let res = catch(std::panic::AssertUnwindSafe(|| {
         let (sb, _) = ScriptBody::new(evs.iter().map(to_ev).collect());
         let body = CountBody { inner: sb, polls: polls.clone(), ends: ends.clone(), eos_mode: 0 };
@@ -320,7 +349,10 @@ fn run_client(evs: &[E]) -> Observed {
         let mut body = Box::pin(resp.into_body());
         let per_frame = evs.len() + 10;
         let mut finished = false;
+        hint0 = hint_of(body.size_hint());
+        hint1 = hint0;
         for _ in 0..100_000 {
+            hints_at.push((hint_of(body.size_hint()), items.len()));
             match spin(std::future::poll_fn(|cx| body.as_mut().poll_frame(cx)), per_frame) {
                 Err(()) => {
                     items.push(Item::Busy);
@@ -364,12 +396,16 @@ fn run_client(evs: &[E]) -> Observed {
                 Ok(Some(Err(st))) => extra.push(classify(st.code() as i32, st.message())),
             }
         }
+        hint1 = hint_of(body.size_hint());
     }));
     if let Err(p) = res {
         extra.clear();
         items.push(if p.contains("BUSYLOOP") { Item::Busy } else { Item::Panic });
     }
-    Observed { items, extra, polls: polls.load(Ordering::SeqCst), ends: ends.load(Ordering::SeqCst) }
+    // DATA bytes delivered after each recorded hint
+    let lens: Vec<usize> = items.iter().map(|i| if let Item::Data(d) = i { d.len() } else { 0 }).collect();
+    let hints = hints_at.iter().map(|(h, at)| (*h, lens[(*at).min(lens.len())..].iter().sum())).collect();
+    Observed { items, extra, polls: polls.load(Ordering::SeqCst), ends: ends.load(Ordering::SeqCst), hint0, hint1, hints }
 }
 
 /// The response body read by a hyper-like consumer: `is_end_stream()` is asked before the first
@@ -431,10 +467,10 @@ fn case_client_hyper(out: &mut OutB, kind: &str, evs: &[E], mode: u8, judged: bo
         }
     }
     let mut oracle = None;
-    let late = rest.iter().filter(|i| matches!(i, Item::Data(_) | Item::Trailers(_))).count();
+    let late = rest.iter().filter(|i| matches!(i, Item::Data(_) | Item::Trailers(_) | Item::Err(..))).count();
     if judged && late > 0 {
         oracle = Some(format!(
-            "is_end_stream() answered true after {} frame(s) although {} more frame(s) (data / trailers) were still to be yielded: a consumer that honours it loses them",
+            "is_end_stream() answered true after {} frame(s) although {} more item(s) (data / trailers / an error) were still to be yielded: a consumer that honours it loses them",
             items.len(),
             late
         ));
@@ -445,7 +481,7 @@ fn case_client_hyper(out: &mut OutB, kind: &str, evs: &[E], mode: u8, judged: bo
     out.push(Case {
         kind: kind.to_string(),
         input: json!({"evs": evs.iter().map(ev_json).collect::<Vec<_>>(), "eos_mode": mode}),
-        model: format!("obs_client_hyper {} {}", mode, evs_coq(evs)),
+        model: format!("obs_client_hyper_x {} {}", mode, evs_coq(evs)),
         impl_obs: Tr::L(vec![
             Tr::L(items.iter().map(|i| i.tr()).collect()),
             Tr::bool(by_eos),
@@ -456,6 +492,448 @@ fn case_client_hyper(out: &mut OutB, kind: &str, evs: &[E], mode: u8, judged: bo
     });
 }
 
+
+// ------------------------------------------------------------------ the real client stack
+// tonic::client::Grpc -> GrpcWebClientService -> scripted inner service: what the CALLER of a
+// generated client sees ("so the caller sees the server's real status").
+#[derive(Clone, Copy, Default)]
+struct RawCodec;
+struct RawEnc;
+struct RawDec;
+impl Encoder for RawEnc {
+    type Item = Vec<u8>;
+    type Error = Status;
+    fn encode(&mut self, item: Vec<u8>, dst: &mut EncodeBuf<'_>) -> Result<(), Status> {
+        dst.put_slice(&item);
+        Ok(())
+    }
+}
+impl Decoder for RawDec {
+    type Item = Vec<u8>;
+    type Error = Status;
+    fn decode(&mut self, src: &mut DecodeBuf<'_>) -> Result<Option<Vec<u8>>, Status> {
+        let n = src.remaining();
+        Ok(Some(src.copy_to_bytes(n).to_vec()))
+    }
+}
+impl Codec for RawCodec {
+    type Encode = Vec<u8>;
+    type Decode = Vec<u8>;
+    type Encoder = RawEnc;
+    type Decoder = RawDec;
+    fn encoder(&mut self) -> RawEnc {
+        RawEnc
+    }
+    fn decoder(&mut self) -> RawDec {
+        RawDec
+    }
+}
+
+type SeenReq = Arc<Mutex<Option<(Version, Option<Vec<u8>>)>>>;
+struct StackInner {
+    resp: Option<Response<CountBody>>,
+    seen: SeenReq,
+}
+impl Service<Request<GrpcWebCall<tonic::body::Body>>> for StackInner {
+    type Response = Response<CountBody>;
+    type Error = Infallible;
+    type Future = std::future::Ready<Result<Response<CountBody>, Infallible>>;
+    fn poll_ready(&mut self, _: &mut Context<'_>) -> Poll<Result<(), Infallible>> {
+        Poll::Ready(Ok(()))
+    }
+    fn call(&mut self, req: Request<GrpcWebCall<tonic::body::Body>>) -> Self::Future {
+        let ct = req.headers().get("content-type").map(|v| v.as_bytes().to_vec());
+        *self.seen.lock().unwrap() = Some((req.version(), ct));
+        std::future::ready(Ok(self.resp.take().expect("called once")))
+    }
+}
+
+/// the texts of statuses are compared by a fixed prefix only (Model/WebClient.v werr_text, the
+/// prefixes of Model/Status.v; statuses made by tonic's decoder carry no text in Model/Decoder.v)
+fn canon_status_msg(m: &str) -> Vec<u8> {
+    for full in [
+        "tonic-web: unexpected data after trailers",
+        "tonic-web: unexpected EOF, incomplete frame",
+        "tonic-web: unexpected EOF, missing trailers",
+    ] {
+        if m.starts_with(full) {
+            return full.as_bytes().to_vec();
+        }
+    }
+    for p in [
+        "tonic-web: ",
+        "Invalid header bit ",
+        "Unable to parse HeaderName: ",
+        "Unable to parse HeaderValue: ",
+        "Error deserializing status message header: ",
+        "Error deserializing status details header: ",
+        "grpc-status header missing, mapped from HTTP status code ",
+    ] {
+        if m.starts_with(p) {
+            return p.as_bytes().to_vec();
+        }
+    }
+    for p in ["Unexpected EOF decoding stream.", "protocol error: received message with", "Error, decoded message length too large: "] {
+        if m.starts_with(p) {
+            return vec![];
+        }
+    }
+    m.as_bytes().to_vec()
+}
+fn status_tr(st: &Status) -> Tr {
+    Tr::L(vec![
+        Tr::n(st.code() as i32 as u32),
+        Tr::B(canon_status_msg(st.message())),
+        Tr::b(st.details()),
+        hm_tr(&st.metadata().clone().into_headers()),
+    ])
+}
+
+/// what the caller got
+#[derive(Debug)]
+enum Caller {
+    /// the call itself failed (unary: any failure; streaming: before a stream was returned)
+    Err(Status),
+    Unary(HeaderMap, Vec<u8>),
+    /// streaming: initial metadata, the messages, then Ok(trailers()) or the status that ended it
+    Stream(HeaderMap, Vec<Vec<u8>>, Result<Option<HeaderMap>, Status>),
+    Hang,
+    Panic,
+}
+impl Caller {
+    fn tr(&self) -> Tr {
+        match self {
+            Caller::Err(st) => Tr::L(vec![Tr::n(0u8), status_tr(st)]),
+            Caller::Unary(md, m) => Tr::L(vec![Tr::n(1u8), hm_tr(md), Tr::b(m)]),
+            Caller::Stream(md, ms, end) => Tr::L(vec![
+                Tr::n(2u8),
+                hm_tr(md),
+                Tr::L(ms.iter().map(|m| Tr::b(m)).collect()),
+                match end {
+                    Ok(t) => Tr::L(vec![Tr::n(0u8), Tr::opt(t.as_ref().map(hm_tr))]),
+                    Err(st) => Tr::L(vec![Tr::n(1u8), status_tr(st)]),
+                },
+            ]),
+            Caller::Hang => Tr::L(vec![Tr::n(8u8)]),
+            Caller::Panic => Tr::L(vec![Tr::n(9u8)]),
+        }
+    }
+    /// the status the caller ends up with: Ok(()) or the error
+    fn final_status(&self) -> Option<Result<(), &Status>> {
+        match self {
+            Caller::Err(st) => Some(Err(st)),
+            Caller::Unary(..) => Some(Ok(())),
+            Caller::Stream(_, _, Ok(_)) => Some(Ok(())),
+            Caller::Stream(_, _, Err(st)) => Some(Err(st)),
+            _ => None,
+        }
+    }
+}
+
+/// one call through the real stack; `shape` 0 = unary(), 2 = server_streaming()
+fn run_stack(shape: u8, http: u16, headers: &[(String, Vec<u8>)], evs: &[E]) -> (Caller, Option<(Version, Option<Vec<u8>>)>) {
+    let seen: SeenReq = Arc::new(Mutex::new(None));
+    let seen2 = seen.clone();
+    let res = catch(std::panic::AssertUnwindSafe(move || {
+        let (sb, _) = ScriptBody::new(evs.iter().map(to_ev).collect());
+        let body = CountBody { inner: sb, polls: Default::default(), ends: Default::default(), eos_mode: 0 };
+        let mut resp = Response::new(body);
+        *resp.status_mut() = http::StatusCode::from_u16(http).unwrap();
+        *resp.headers_mut() = pairs_to_map(headers);
+        let mut grpc = tonic::client::Grpc::new(GrpcWebClientService::new(StackInner { resp: Some(resp), seen: seen2 }));
+        let cap = 20 * evs.len() + 200;
+        let path = http::uri::PathAndQuery::from_static("/pkg.Svc/Method");
+        if spin(grpc.ready(), 10).is_err() {
+            return Caller::Hang;
+        }
+        if shape == 0 {
+            return match spin(grpc.unary(tonic::Request::new(vec![1u8, 2, 3]), path, RawCodec), cap) {
+                Err(()) => Caller::Hang,
+                Ok(Err(st)) => Caller::Err(st),
+                Ok(Ok(r)) => {
+                    let (md, m, _) = r.into_parts();
+                    Caller::Unary(md.into_headers(), m)
+                }
+            };
+        }
+        let r = match spin(grpc.server_streaming(tonic::Request::new(vec![1u8, 2, 3]), path, RawCodec), cap) {
+            Err(()) => return Caller::Hang,
+            Ok(Err(st)) => return Caller::Err(st),
+            Ok(Ok(r)) => r,
+        };
+        let (md, mut stream, _) = r.into_parts();
+        let md = md.into_headers();
+        let mut msgs = vec![];
+        for _ in 0..100_000 {
+            match spin(stream.message(), cap) {
+                Err(()) => return Caller::Hang,
+                Ok(Ok(Some(m))) => msgs.push(m),
+                Ok(Ok(None)) => {
+                    return match spin(stream.trailers(), cap) {
+                        Err(()) => Caller::Hang,
+                        Ok(Ok(t)) => Caller::Stream(md, msgs, Ok(t.map(|t| t.into_headers()))),
+                        Ok(Err(st)) => Caller::Stream(md, msgs, Err(st)),
+                    }
+                }
+                Ok(Err(st)) => return Caller::Stream(md, msgs, Err(st)),
+            }
+        }
+        Caller::Hang
+    }));
+    let c = match res {
+        Ok(c) => c,
+        Err(p) => {
+            if p.contains("BUSYLOOP") {
+                Caller::Hang
+            } else {
+                Caller::Panic
+            }
+        }
+    };
+    let sreq = seen.lock().unwrap().take();
+    (c, sreq)
+}
+
+/// what the server meant (encoded into the response by this harness, never by tonic)
+#[derive(Clone, Debug)]
+struct ServerStatus {
+    code: u32,
+    message: String,
+    details: Vec<u8>,
+    /// custom metadata (names that are neither grpc-status, grpc-message nor grpc-status-details-bin)
+    md: Vec<(String, Vec<u8>)>,
+}
+fn pct(m: &str) -> Vec<u8> {
+    let mut v = vec![];
+    for b in m.bytes() {
+        if (0x20..=0x7e).contains(&b) && b != b'%' {
+            v.push(b);
+        } else {
+            v.extend(format!("%{:02X}", b).into_bytes());
+        }
+    }
+    v
+}
+fn b64_nopad(d: &[u8]) -> Vec<u8> {
+    const A: &[u8] = b"ABCDEFGHIJKLMNOPQRSTUVWXYZabcdefghijklmnopqrstuvwxyz0123456789+/";
+    let mut v = vec![];
+    for c in d.chunks(3) {
+        let n = (c[0] as u32) << 16 | (*c.get(1).unwrap_or(&0) as u32) << 8 | *c.get(2).unwrap_or(&0) as u32;
+        v.push(A[(n >> 18) as usize & 63]);
+        v.push(A[(n >> 12) as usize & 63]);
+        if c.len() > 1 {
+            v.push(A[(n >> 6) as usize & 63]);
+        }
+        if c.len() > 2 {
+            v.push(A[n as usize & 63]);
+        }
+    }
+    v
+}
+impl ServerStatus {
+    fn trailers(&self) -> Vec<(String, Vec<u8>)> {
+        let mut t = vec![(s("grpc-status"), self.code.to_string().into_bytes())];
+        if !self.message.is_empty() {
+            t.push((s("grpc-message"), pct(&self.message)));
+        }
+        if !self.details.is_empty() {
+            t.push((s("grpc-status-details-bin"), b64_nopad(&self.details)));
+        }
+        t.extend(self.md.iter().cloned());
+        t
+    }
+    fn json(&self) -> Value {
+        json!({"code": self.code, "message": self.message, "details": hex(&self.details),
+               "md": self.md.iter().map(|(k, v)| json!([k, hex(v)])).collect::<Vec<_>>()})
+    }
+    fn from_json(v: &Value) -> ServerStatus {
+        ServerStatus {
+            code: v["code"].as_u64().unwrap() as u32,
+            message: v["message"].as_str().unwrap().to_string(),
+            details: unhex(v["details"].as_str().unwrap()),
+            md: pairs_from_json(&v["md"]),
+        }
+    }
+}
+#[derive(Clone, Debug)]
+enum StackExpect {
+    /// a complete response: these messages (payloads, all frames with flag 0), then this status
+    Status { payloads: Vec<Vec<u8>>, st: ServerStatus, in_headers: bool },
+    /// cut inside a frame / malformed: the caller must end with an error, never with OK
+    MustFail { payloads: Vec<Vec<u8>> },
+    /// message frames without a trailers frame: the caller must end with an error (F-C17j)
+    NoTrailers { payloads: Vec<Vec<u8>> },
+    /// not decided by the property (compared with the model only)
+    Observe,
+}
+fn payloads_json(p: &[Vec<u8>]) -> Value {
+    json!(p.iter().map(|x| hex(x)).collect::<Vec<_>>())
+}
+fn payloads_from(v: &Value) -> Vec<Vec<u8>> {
+    v.as_array().map(|a| a.iter().map(|x| unhex(x.as_str().unwrap())).collect()).unwrap_or_default()
+}
+fn stack_expect_json(e: &StackExpect) -> Value {
+    match e {
+        StackExpect::Status { payloads, st, in_headers } => json!({"status": {"payloads": payloads_json(payloads), "st": st.json(), "in_headers": in_headers}}),
+        StackExpect::MustFail { payloads } => json!({"must_fail": payloads_json(payloads)}),
+        StackExpect::NoTrailers { payloads } => json!({"no_trailers": payloads_json(payloads)}),
+        StackExpect::Observe => json!("observe"),
+    }
+}
+fn stack_expect_from(v: &Value) -> StackExpect {
+    if let Some(x) = v.get("status") {
+        StackExpect::Status { payloads: payloads_from(&x["payloads"]), st: ServerStatus::from_json(&x["st"]), in_headers: x["in_headers"].as_bool().unwrap_or(false) }
+    } else if let Some(x) = v.get("must_fail") {
+        StackExpect::MustFail { payloads: payloads_from(x) }
+    } else if let Some(x) = v.get("no_trailers") {
+        StackExpect::NoTrailers { payloads: payloads_from(x) }
+    } else {
+        StackExpect::Observe
+    }
+}
+fn is_prefix_of(a: &[Vec<u8>], b: &[Vec<u8>]) -> bool {
+    a.len() <= b.len() && a.iter().zip(b.iter()).all(|(x, y)| x == y)
+}
+/// the caller's error is the server's status
+fn same_status(got: &Status, want: &ServerStatus) -> Option<String> {
+    if got.code() as i32 as u32 != want.code {
+        return Some(format!("caller sees code {} but the server sent grpc-status {}", got.code() as i32, want.code));
+    }
+    if got.message() != want.message {
+        return Some(format!("caller sees message {:?} but the server sent {:?}", got.message(), want.message));
+    }
+    if got.details() != &want.details[..] {
+        return Some("caller sees other status details than the server sent".into());
+    }
+    let h = got.metadata().clone().into_headers();
+    same_md(&h, &want.md)
+}
+/// every custom entry of the server arrives with all its values, in order
+fn same_md(got: &HeaderMap, want: &[(String, Vec<u8>)]) -> Option<String> {
+    let g: Vec<(String, Vec<u8>)> = got.iter().map(|(k, v)| (k.as_str().to_string(), v.as_bytes().to_vec())).collect();
+    for (k, _) in want {
+        if values_of(&g, k) != values_of(want, k) {
+            return Some(format!("metadata {}: the server sent {:?}, the caller sees {:?}", k, values_of(want, k), values_of(&g, k)));
+        }
+    }
+    None
+}
+fn stack_oracle(shape: u8, c: &Caller, e: &StackExpect, sreq: &Option<(Version, Option<Vec<u8>>)>) -> Option<String> {
+    match c {
+        Caller::Hang => return Some("hang / busy loop: the call did not complete".into()),
+        Caller::Panic => return Some("panic inside the call".into()),
+        _ => {}
+    }
+    match sreq {
+        Some((v, ct)) => {
+            if *v != Version::HTTP_11 {
+                return Some(format!("the request reached the inner service as {:?}, not HTTP/1.1", v));
+            }
+            if ct.as_deref() != Some(&b"application/grpc-web"[..]) {
+                return Some("the request reached the inner service without content-type application/grpc-web".into());
+            }
+        }
+        None => return Some("the inner service was not called".into()),
+    }
+    let fin = c.final_status().unwrap();
+    match e {
+        StackExpect::Status { payloads, st, in_headers } => {
+            match c {
+                Caller::Stream(head, ms, end) => {
+                    if ms != payloads {
+                        return Some(format!("the caller got {} messages, the server sent {}", ms.len(), payloads.len()));
+                    }
+                    match end {
+                        // a trailers-only response carries its metadata in the head
+                        Ok(_) if st.code == 0 && *in_headers => same_md(head, &st.md),
+                        Ok(t) if st.code == 0 => {
+                            let empty = HeaderMap::new();
+                            same_md(t.as_ref().unwrap_or(&empty), &st.md)
+                        }
+                        Ok(_) => Some(format!("the stream ended OK but the server sent grpc-status {}", st.code)),
+                        Err(g) if st.code != 0 => same_status(g, st),
+                        Err(g) => Some(format!("the server sent grpc-status 0 but the stream ended with code {} {:?}", g.code() as i32, g.message())),
+                    }
+                }
+                Caller::Unary(md, m) => {
+                    if st.code != 0 {
+                        return Some(format!("unary call returned OK but the server sent grpc-status {}", st.code));
+                    }
+                    // (more than one message is a cardinality violation of the server, which tonic's
+                    // unary() tolerates by taking the first: gRPC semantics, not this layer's)
+                    if payloads.is_empty() || &payloads[0] != m {
+                        return Some("unary call returned another message than the server sent".into());
+                    }
+                    same_md(md, &st.md)
+                }
+                Caller::Err(g) => {
+                    if st.code != 0 {
+                        same_status(g, st)
+                    } else if shape == 0 && payloads.len() != 1 {
+                        // unary with a message count other than 1 is a cardinality violation of the server
+                        None
+                    } else {
+                        Some(format!("the server sent grpc-status 0 but the call failed with code {} {:?}", g.code() as i32, g.message()))
+                    }
+                }
+                _ => None,
+            }
+        }
+        StackExpect::MustFail { payloads } => {
+            if let Caller::Stream(_, ms, _) = c {
+                if !is_prefix_of(ms, payloads) {
+                    return Some("messages delivered before the failure are not a prefix of the messages sent".into());
+                }
+            }
+            match fin {
+                Ok(()) => Some("a response that was cut off inside a frame / is malformed completed with OK".into()),
+                Err(st) if st.code() as i32 == 0 => Some("error status with code OK".into()),
+                Err(_) => None,
+            }
+        }
+        StackExpect::NoTrailers { payloads } => {
+            if let Caller::Stream(_, ms, _) = c {
+                if !is_prefix_of(ms, payloads) {
+                    return Some("messages delivered are not a prefix of the messages sent".into());
+                }
+            }
+            match fin {
+                Ok(()) if !payloads.is_empty() => {
+                    Some(format!("{}: the caller sees OK, the server's status never arrived", NO_TRAILERS_TEXT))
+                }
+                _ => None,
+            }
+        }
+        StackExpect::Observe => None,
+    }
+}
+fn case_stack(out: &mut OutB, kind: &str, shape: u8, http: u16, headers: &[(String, Vec<u8>)], evs: &[E], expect: &StackExpect) {
+    let (c, sreq) = run_stack(shape, http, headers, evs);
+    out.hist("stack.shape", if shape == 0 { "unary" } else { "server_streaming" });
+    out.hist(
+        "stack.caller_sees",
+        match c.final_status() {
+            Some(Ok(())) => "OK".to_string(),
+            Some(Err(st)) => format!("code {}", st.code() as i32),
+            None => "hang/panic".to_string(),
+        },
+    );
+    if let StackExpect::Status { st, .. } = expect {
+        out.hist("stack.server_code", st.code);
+    }
+    let hm = pairs_to_map(headers);
+    out.push(Case {
+        kind: kind.to_string(),
+        input: json!({"stack": {"shape": shape, "http": http,
+            "headers": headers.iter().map(|(k, v)| json!([k, hex(v)])).collect::<Vec<_>>(),
+            "evs": evs.iter().map(ev_json).collect::<Vec<_>>(), "expect": stack_expect_json(expect)}}),
+        model: format!("obs_stack {} {} {} {}", shape, http, coq_hm(&hm), evs_coq(evs)),
+        impl_obs: c.tr(),
+        oracle: stack_oracle(shape, &c, expect, &sreq),
+        nontrivial: !evs.is_empty() || headers.len() > 1,
+    });
+}
+
 // ------------------------------------------------------------------ expectations (the oracle)
 #[derive(Clone, Debug)]
 enum Expect {
@@ -463,10 +941,18 @@ enum Expect {
     Valid { msgs: Vec<u8>, trailers: Vec<(String, Vec<u8>)> },
     /// cut inside a frame: an error, never a clean end; data delivered is a prefix of `msgs`
     Truncated { msgs: Vec<u8> },
-    /// cut exactly between frames / no trailers frame at all: recorded, data must be `msgs`
+    /// cut exactly between frames / no trailers frame at all: every frame is delivered (`msgs`),
+    /// no trailers, then an ERROR - unless the body is empty (clean end or error)
     Boundary { msgs: Vec<u8> },
     /// malformed: an error must be produced
     MustErr,
+    /// malformed after / inside the valid message frames `msgs`: an error must be produced and what
+    /// was delivered before it is whole frames of `msgs`, in order
+    MustErrAfter { msgs: Vec<u8> },
+    /// a complete body whose wrapped body ALSO has HTTP trailers (not a grpc-web thing; the code
+    /// merges them with HeaderMap::extend): the messages, one trailers item, a clean end; every
+    /// in-body trailer whose name is not among the HTTP trailers in full, every HTTP trailer in full
+    Merged { msgs: Vec<u8>, frame: Vec<(String, Vec<u8>)>, http: Vec<(String, Vec<u8>)> },
     /// behaviour the property text does not decide: no hang, no panic; compared with the model only
     Observe,
     /// as Observe, a panic is recorded as well (capacity limit of http::HeaderMap)
@@ -479,6 +965,8 @@ fn expect_json(e: &Expect) -> Value {
         Expect::Truncated { msgs } => json!({"truncated": {"msgs": hex(msgs)}}),
         Expect::Boundary { msgs } => json!({"boundary": {"msgs": hex(msgs)}}),
         Expect::MustErr => json!("must_err"),
+        Expect::MustErrAfter { msgs } => json!({"must_err_after": {"msgs": hex(msgs)}}),
+        Expect::Merged { msgs, frame, http } => json!({"merged": {"msgs": hex(msgs), "frame": pj(frame), "http": pj(http)}}),
         Expect::Observe => json!("observe"),
         Expect::ObserveAny => json!("observe_any"),
     }
@@ -490,6 +978,14 @@ fn expect_from_json(v: &Value) -> Expect {
         Expect::Truncated { msgs: unhex(x["msgs"].as_str().unwrap()) }
     } else if let Some(x) = v.get("boundary") {
         Expect::Boundary { msgs: unhex(x["msgs"].as_str().unwrap()) }
+    } else if let Some(x) = v.get("must_err_after") {
+        Expect::MustErrAfter { msgs: unhex(x["msgs"].as_str().unwrap()) }
+    } else if let Some(x) = v.get("merged") {
+        Expect::Merged {
+            msgs: unhex(x["msgs"].as_str().unwrap()),
+            frame: pairs_from_json(&x["frame"]),
+            http: pairs_from_json(&x["http"]),
+        }
     } else if v == "must_err" {
         Expect::MustErr
     } else if v == "observe_any" {
@@ -497,6 +993,29 @@ fn expect_from_json(v: &Value) -> Expect {
     } else {
         Expect::Observe
     }
+}
+
+/// A body of message frames WITHOUT any trailers frame (cut exactly between two frames).  The
+/// property: "message frames followed by a trailers frame ... so the caller sees the server's real
+/// status", "cut off inside a frame, or otherwise malformed, produces an error rather than a
+/// premature clean end", quantifier "truncation at every byte".  Such a body is not a grpc-web
+/// response body and a clean end is premature: it MUST end with an error (finding F-C17j, fixed by
+/// c815a16a).  Only an EMPTY body may end cleanly: that is what a trailers-only response has.
+const NO_TRAILERS_TEXT: &str = "message frames without a trailers frame were taken for a complete response";
+
+/// the offsets at which a sequence of complete frames ends
+fn frame_ends(b: &[u8]) -> Vec<usize> {
+    let mut v = vec![0];
+    let mut at = 0;
+    while at + 5 <= b.len() {
+        let n = u32::from_be_bytes([b[at + 1], b[at + 2], b[at + 3], b[at + 4]]) as usize;
+        if at + 5 + n > b.len() {
+            break;
+        }
+        at += 5 + n;
+        v.push(at);
+    }
+    v
 }
 
 fn values_of(t: &[(String, Vec<u8>)], k: &str) -> Vec<Vec<u8>> {
@@ -512,6 +1031,20 @@ fn oracle(o: &Observed, e: &Expect) -> Option<String> {
     }
     if o.ends > 2 {
         return Some(format!("inner body polled {} times after its end", o.ends - 1));
+    }
+    // Body::size_hint: at every point lower <= DATA bytes still to be delivered <= upper
+    if !o.items.contains(&Item::Panic) {
+        for (i, ((lo, up), rest)) in o.hints.iter().enumerate() {
+            if *lo > *rest as u64 || up.map(|u| u < *rest as u64).unwrap_or(false) {
+                return Some(format!(
+                    "size_hint before poll {} was ({}, {:?}) but {} DATA bytes were delivered after it",
+                    i + 1, lo, up, rest
+                ));
+            }
+        }
+        if o.hint1.0 > 0 {
+            return Some(format!("size_hint after the last poll has lower bound {}", o.hint1.0));
+        }
     }
     let data: Vec<u8> = o
         .items
@@ -576,25 +1109,80 @@ fn oracle(o: &Observed, e: &Expect) -> Option<String> {
             None
         }
         Expect::Boundary { msgs } => {
-            // not "inside a frame": the property demands no error; what the code does (and
-            // c17_webc_no_trailers_frame proves) is: every frame, no trailers, a clean end
             if o.items.iter().any(|i| matches!(i, Item::Trailers(_))) {
                 return Some("trailers yielded although no trailers frame was sent".into());
             }
             if &data != msgs {
                 return Some("message bytes differ".into());
             }
-            if last != Some(&Item::None) {
-                return Some(format!("a body cut between two frames did not end cleanly: {:?}", last));
+            if o.extra != vec![Item::None, Item::None] {
+                return Some(format!("polls after the end / the error gave {:?}", o.extra));
+            }
+            let is_err = last.map(|i| i.is_err()).unwrap_or(false);
+            let clean = last == Some(&Item::None);
+            if !(is_err || clean) {
+                return Some(format!("a body cut between two frames ended with {:?}", last));
+            }
+            if msgs.is_empty() {
+                // an EMPTY body is what a trailers-only response has (status in the HTTP headers):
+                // this layer cannot tell, both endings are accepted
+                return None;
+            }
+            if !is_err {
+                return Some(format!(
+                    "{}: the body ended cleanly after {} bytes of message frames", NO_TRAILERS_TEXT, data.len()
+                ));
             }
             None
         }
-        Expect::MustErr => {
+        Expect::MustErr | Expect::MustErrAfter { .. } => {
             if !last.map(|i| i.is_err()).unwrap_or(false) {
                 return Some(format!("malformed body did not produce an error: last item {:?}", last));
             }
             if o.extra != vec![Item::None, Item::None] {
                 return Some(format!("polls after the error gave {:?}", o.extra));
+            }
+            if let Expect::MustErrAfter { msgs } = e {
+                if o.items.iter().any(|i| matches!(i, Item::Trailers(_))) {
+                    return Some("trailers yielded from a malformed body".into());
+                }
+                if !msgs.starts_with(&data) || !frame_ends(msgs).contains(&data.len()) {
+                    return Some("data yielded before the error is not a sequence of whole frames of the body".into());
+                }
+            }
+            None
+        }
+        Expect::Merged { msgs, frame, http } => {
+            if &data != msgs {
+                return Some(format!("message bytes differ: got {} bytes, encoded {}", data.len(), msgs.len()));
+            }
+            if last != Some(&Item::None) {
+                return Some(format!("body did not end cleanly: last item {:?}", last));
+            }
+            let tr: Vec<&HeaderMap> =
+                o.items.iter().filter_map(|i| if let Item::Trailers(t) = i { Some(t) } else { None }).collect();
+            if tr.len() != 1 || !matches!(o.items.get(n.wrapping_sub(2)), Some(Item::Trailers(_))) {
+                return Some(format!("{} trailers items (exactly one, last before the end, expected)", tr.len()));
+            }
+            let got: Vec<(String, Vec<u8>)> =
+                tr[0].iter().map(|(k, v)| (k.as_str().to_string(), v.as_bytes().to_vec())).collect();
+            for (k, _) in got.iter() {
+                if values_of(frame, k).is_empty() && values_of(http, k).is_empty() {
+                    return Some(format!("trailer {} was neither in the trailers frame nor in the HTTP trailers", k));
+                }
+            }
+            for (k, _) in http.iter() {
+                if values_of(&got, k) != values_of(http, k) {
+                    return Some(format!("HTTP trailer {}: sent {:?}, yielded {:?}", k, values_of(http, k), values_of(&got, k)));
+                }
+            }
+            for (k, _) in frame.iter() {
+                if values_of(http, k).is_empty() && values_of(&got, k) != values_of(frame, k) {
+                    return Some(format!("trailer {} of the trailers frame: sent {:?}, yielded {:?}", k, values_of(frame, k), values_of(&got, k)));
+                }
+            }
+            if o.extra != vec![Item::None, Item::None] {
+                return Some(format!("polls after the end gave {:?}", o.extra));
             }
             None
         }
@@ -626,7 +1214,8 @@ fn case_client(out: &mut OutB, kind: &str, evs: &[E], expect: &Expect) {
             Expect::Valid { .. } => "valid",
             Expect::Truncated { .. } => "truncated-inside-frame",
             Expect::Boundary { .. } => "cut-between-frames",
-            Expect::MustErr => "malformed",
+            Expect::MustErr | Expect::MustErrAfter { .. } => "malformed",
+            Expect::Merged { .. } => "valid+http-trailers",
             _ => "observe",
         },
     );
@@ -641,6 +1230,7 @@ fn case_client(out: &mut OutB, kind: &str, evs: &[E], expect: &Expect) {
                 1 => "err:data-after-trailers",
                 2 => "err:flag",
                 3 => "err:eof",
+                8 => "err:missing-trailers",
                 4 => "err:inner",
                 5 | 6 | 7 => "err:trailer-line",
                 _ => "err:other",
@@ -653,7 +1243,7 @@ fn case_client(out: &mut OutB, kind: &str, evs: &[E], expect: &Expect) {
     out.push(Case {
         kind: kind.to_string(),
         input: json!({"evs": evs.iter().map(ev_json).collect::<Vec<_>>(), "expect": expect_json(expect)}),
-        model: format!("obs_client {}", evs_coq(evs)),
+        model: format!("obs_client_x {}", evs_coq(evs)),
         impl_obs: o.tr(),
         oracle: oracle(&o, expect),
         nontrivial: body_len > 0,
@@ -783,12 +1373,40 @@ fn gen_value(r: &mut Rng) -> Vec<u8> {
     let pieces: &[&[u8]] = &[
         b"a", b":", b" ", b"b c", b"%20", b"x:y:z", b"\xc3\xa9", b"\t", b"::", b"0", b"=", b"/+", b"not found", b"a: b",
     ];
-    let n = r.below(5);
-    let mut v: Vec<u8> = (0..n).flat_map(|_| r.pick(pieces).to_vec()).collect();
+    let mut v: Vec<u8> = if r.chance(1, 4) {
+        // any legal HeaderValue bytes: visible ASCII, space, tab, obs-text
+        let n = r.below(24) as usize;
+        (0..n)
+            .map(|_| match r.below(12) {
+                0 => b'\t',
+                1 => b' ',
+                2 => b':',
+                3 => r.range(0x80, 0xff) as u8,
+                _ => r.range(0x21, 0x7e) as u8,
+            })
+            .collect()
+    } else {
+        let n = r.below(5);
+        (0..n).flat_map(|_| r.pick(pieces).to_vec()).collect()
+    };
     while v.first() == Some(&b' ') {
         v.remove(0);
     }
     v
+}
+/// a legal lower-case header name: the fixed ones of gRPC, names http knows as standard headers,
+/// and random tokens over the whole alphabet of HeaderName (1..12 bytes, now and then longer)
+fn gen_name(r: &mut Rng) -> String {
+    const TOKEN: &[u8] = b"abcdefghijklmnopqrstuvwxyz0123456789!#$%&'*+-.^_`|~";
+    match r.below(10) {
+        0..=2 => s("x-k"),
+        3 => s(*r.pick(&["content-type", "date", "server", "set-cookie", "te", "accept", "etag", "via", "warning", "x-trace-bin", "a"])),
+        _ => {
+            let n = if r.chance(1, 12) { r.range(30, 70) } else { r.range(1, 12) } as usize;
+            let v: Vec<u8> = (0..n).map(|_| *r.pick(TOKEN)).collect();
+            String::from_utf8(v).unwrap()
+        }
+    }
 }
 fn gen_trailers(r: &mut Rng) -> Vec<(String, Vec<u8>)> {
     let mut t = vec![];
@@ -800,7 +1418,7 @@ fn gen_trailers(r: &mut Rng) -> Vec<(String, Vec<u8>)> {
         t.push((s("grpc-message"), gen_value(r)));
     }
     for _ in 0..r.below(4) {
-        t.push((s("x-k"), gen_value(r)));
+        t.push((gen_name(r), gen_value(r)));
     }
     if r.chance(1, 3) {
         let pool: &[&[u8]] = &[b"", b"QQ==", b"AAEC", b"/+8=", b"Zm9vYmFy", b"QUJD"];
@@ -943,7 +1561,7 @@ fn malformed(out: &mut OutB, r: &mut Rng) {
     let b = gen_body(r);
     let bytes = b.bytes();
     let mb = b.msg_bytes();
-    let which = r.below(13);
+    let which = r.below(14);
     let (kind, body, expect): (&str, Vec<u8>, Expect) = match which {
         0 => {
             // a flag that is neither 0, 1 nor 0x80 where a frame starts
@@ -951,28 +1569,28 @@ fn malformed(out: &mut OutB, r: &mut Rng) {
             let mut v = mb.clone();
             v.extend(frame(flag, &gen_payload(r)));
             v.extend(tframe(&b.trailers));
-            ("malformed.flag", v, Expect::MustErr)
+            ("malformed.flag", v, Expect::MustErrAfter { msgs: mb.clone() })
         }
         1 => {
             let mut v = bytes.clone();
             let n = r.range(1, 6) as usize;
             v.extend(r.bytes(n));
-            ("malformed.stray_after_trailers", v, Expect::MustErr)
+            ("malformed.stray_after_trailers", v, Expect::MustErrAfter { msgs: mb.clone() })
         }
         2 => {
             let mut v = bytes.clone();
             v.extend(frame(0, &gen_payload(r)));
-            ("malformed.data_after_trailers", v, Expect::MustErr)
+            ("malformed.data_after_trailers", v, Expect::MustErrAfter { msgs: mb.clone() })
         }
         3 => {
             let mut v = bytes.clone();
             v.extend(tframe(&gen_trailers(r)));
-            ("malformed.second_trailers_frame", v, Expect::MustErr)
+            ("malformed.second_trailers_frame", v, Expect::MustErrAfter { msgs: mb.clone() })
         }
         4 => {
             let mut v = mb.clone();
             v.extend(frame(0x80, b"grpc-status:0\r\nno-colon-here\r\n"));
-            ("malformed.line_without_colon", v, Expect::MustErr)
+            ("malformed.line_without_colon", v, Expect::MustErrAfter { msgs: mb.clone() })
         }
         5 => {
             let name: &[u8] = *r.pick(&[&b"a b"[..], b"", b"x\"y", b"k(", b"\xc3\xa9", b"a\tb", b"x@y"]);
@@ -981,7 +1599,7 @@ fn malformed(out: &mut OutB, r: &mut Rng) {
             blk.extend_from_slice(b":v\r\n");
             let mut v = mb.clone();
             v.extend(frame(0x80, &blk));
-            ("malformed.header_name", v, Expect::MustErr)
+            ("malformed.header_name", v, Expect::MustErrAfter { msgs: mb.clone() })
         }
         6 => {
             let val: &[u8] = *r.pick(&[&b"a\x01b"[..], b"\x7f", b"\x00", b"a\nb", b"x\ry", b"\x1f"]);
@@ -990,7 +1608,7 @@ fn malformed(out: &mut OutB, r: &mut Rng) {
             blk.extend_from_slice(b"\r\n");
             let mut v = mb.clone();
             v.extend(frame(0x80, &blk));
-            ("malformed.header_value", v, Expect::MustErr)
+            ("malformed.header_value", v, Expect::MustErrAfter { msgs: mb.clone() })
         }
         7 => {
             // length prefix of the trailers frame larger than what follows
@@ -999,7 +1617,7 @@ fn malformed(out: &mut OutB, r: &mut Rng) {
             v.push(0x80);
             v.extend_from_slice(&((blk.len() + r.range(1, 9) as usize) as u32).to_be_bytes());
             v.extend(blk);
-            ("malformed.trailers_length_too_big", v, Expect::MustErr)
+            ("malformed.trailers_length_too_big", v, Expect::MustErrAfter { msgs: mb.clone() })
         }
         8 => {
             // length prefix of the trailers frame smaller than the block: the rest is stray data
@@ -1008,7 +1626,7 @@ fn malformed(out: &mut OutB, r: &mut Rng) {
             v.push(0x80);
             v.extend_from_slice(&((blk.len() - r.range(1, 5) as usize) as u32).to_be_bytes());
             v.extend(blk);
-            ("malformed.trailers_length_too_small", v, Expect::MustErr)
+            ("malformed.trailers_length_too_small", v, Expect::MustErrAfter { msgs: mb.clone() })
         }
         9 => {
             // a message frame that announces more than the body holds
@@ -1017,7 +1635,7 @@ fn malformed(out: &mut OutB, r: &mut Rng) {
             v.push(0);
             v.extend_from_slice(&((p.len() + r.range(1, 300) as usize) as u32).to_be_bytes());
             v.extend(p);
-            ("malformed.message_length_too_big", v, Expect::MustErr)
+            ("malformed.message_length_too_big", v, Expect::MustErrAfter { msgs: mb.clone() })
         }
         10 => {
             // other servers write "name: value"; one space after the colon is not part of the value
@@ -1034,6 +1652,16 @@ fn malformed(out: &mut OutB, r: &mut Rng) {
             let mut v = mb.clone();
             v.extend(frame(0x80, &blk));
             ("variant.unterminated_last_line", v, b.valid())
+        }
+        13 => {
+            // a byte that is no flag where a frame starts, followed by FEWER than four bytes: the
+            // frame header is incomplete at the end of the body (no theorem: tie and oracle)
+            let flag = *r.pick(&[2u8, 3, 0x7f, 0x81, 0xff, 0x40]);
+            let mut v = mb.clone();
+            v.push(flag);
+            let n = r.below(4) as usize;
+            v.extend(r.bytes(n));
+            ("malformed.flag_short", v, Expect::MustErrAfter { msgs: mb.clone() })
         }
         _ => {
             // upper-case names are normalised by http::HeaderName
@@ -1063,7 +1691,7 @@ fn inner_events(out: &mut OutB, r: &mut Rng) {
             let at = r.below(evs.len() as u64 + 1) as usize;
             evs.insert(at, E::X);
             let evs = sprinkle(r, evs);
-            case_client(out, "inner.error", &evs, &Expect::MustErr);
+            case_client(out, "inner.error", &evs, &Expect::MustErrAfter { msgs: b.msg_bytes() });
         }
         1 => {
             // HTTP trailers of the wrapped body, no trailers frame in the body
@@ -1078,10 +1706,25 @@ fn inner_events(out: &mut OutB, r: &mut Rng) {
             case_client(out, "inner.http_trailers", &evs, &Expect::Valid { msgs: mb, trailers: want });
         }
         2 => {
-            // HTTP trailers in addition to a trailers frame
+            // HTTP trailers in addition to a trailers frame: merged with HeaderMap::extend
             let mut evs = chunks_at(&bytes, &random_cuts(r, bytes.len()));
-            evs.push(E::T(vec![(s("x-http"), b"1".to_vec()), (s("x-k"), b"http".to_vec())]));
-            case_client(out, "inner.http_trailers_and_frame", &evs, &Expect::Observe);
+            let mut t = vec![(s("x-http"), b"1".to_vec()), (s("x-k"), b"http".to_vec())];
+            if r.chance(1, 2) {
+                t = gen_trailers(r);
+                if t.is_empty() {
+                    t.push((s("x-http"), b"1".to_vec()));
+                }
+            }
+            evs.push(E::T(t.clone()));
+            let m = pairs_to_map(&t);
+            let http: Vec<(String, Vec<u8>)> =
+                m.iter().map(|(k, v)| (k.as_str().to_string(), v.as_bytes().to_vec())).collect();
+            case_client(
+                out,
+                "inner.http_trailers_and_frame",
+                &evs,
+                &Expect::Merged { msgs: b.msg_bytes(), frame: b.trailers.clone(), http },
+            );
         }
         _ => {
             // HTTP trailers arriving before the body is complete
@@ -1237,7 +1880,8 @@ fn mined_sizes(out: &mut OutB, r: &mut Rng, thorough: bool) -> Vec<usize> {
     for &k in &ks {
         out.hist("sized.mined_constant", k);
         for (idx, n) in sizes_around(k, thorough).into_iter().enumerate() {
-            let near = n + 80 >= k && n <= k + 10;
+            // quick tier: every size in K-16..K+10, every third of the others (thorough: all)
+            let near = n + 16 >= k && n <= k + 10;
             if !(thorough || near || idx % 3 == 0) {
                 continue;
             }
@@ -1250,11 +1894,185 @@ fn mined_sizes(out: &mut OutB, r: &mut Rng, thorough: bool) -> Vec<usize> {
         }
     }
     let maxk = ks.iter().copied().max().unwrap_or(8192);
-    for i in 0..(if thorough { 250 } else { 60 }) {
+    for i in 0..(if thorough { 250 } else { 40 }) {
         let n = r.below(3 * maxk as u64 + 1) as usize;
         one(out, *r.pick(&ks), n, r.below(3) as usize, (i % 7 == 0) as usize * 2 + (i % 2) * ((i % 7 != 0) as usize), i % 2 == 0);
     }
     ks
+}
+
+
+// ------------------------------------------------------------------ stack cases
+fn gen_server_status(r: &mut Rng) -> ServerStatus {
+    let code = if r.chance(1, 2) { 0 } else { r.range(1, 16) as u32 };
+    let message = if code == 0 && r.chance(2, 3) {
+        String::new()
+    } else {
+        s(*r.pick(&["", "not found", "a:b c: d", "50% done", "caf\u{e9} \u{fc}ber", "line\nbreak", "x  y", "tab\there", "\u{1f600}", "%41", "trailing "]))
+    };
+    let details = if r.chance(1, 5) {
+        let n = r.range(1, 9) as usize;
+        r.bytes(n)
+    } else {
+        vec![]
+    };
+    let mut md = vec![];
+    for _ in 0..r.below(4) {
+        let k = gen_name(r);
+        if k.starts_with("grpc-") || k == "content-type" || k == "x-head" {
+            continue;
+        }
+        let v = if k.ends_with("-bin") {
+            let n = r.below(7) as usize;
+            b64_nopad(&r.bytes(n))
+        } else {
+            gen_value(r)
+        };
+        md.push((k, v));
+    }
+    ServerStatus { code, message, details, md }
+}
+fn web_headers(r: &mut Rng) -> Vec<(String, Vec<u8>)> {
+    let mut h = vec![(s("content-type"), b"application/grpc-web+proto".to_vec())];
+    if r.chance(1, 3) {
+        h.push((s("x-head"), b"1".to_vec()));
+    }
+    h
+}
+fn stack_case(out: &mut OutB, r: &mut Rng) {
+    let shape = if r.chance(1, 2) { 0u8 } else { 2 };
+    let n = if shape == 0 && r.chance(3, 4) { 1 } else { r.below(4) } as usize;
+    let payloads: Vec<Vec<u8>> = (0..n).map(|_| gen_payload(r)).collect();
+    let mut st = gen_server_status(r);
+    let msgs: Vec<u8> = payloads.iter().flat_map(|p| frame(0, p)).collect();
+    let mut trailers = st.trailers();
+    if trailers.len() > 2 && r.chance(1, 3) {
+        // the status need not come first; the values of one name keep the order of the block
+        let i = r.below(trailers.len() as u64) as usize;
+        let j = r.below(trailers.len() as u64) as usize;
+        trailers.swap(i, j);
+        st.md = trailers
+            .iter()
+            .filter(|(k, _)| !["grpc-status", "grpc-message", "grpc-status-details-bin"].contains(&k.as_str()))
+            .cloned()
+            .collect();
+    }
+    let bytes: Vec<u8> = [msgs.clone(), tframe(&trailers)].concat();
+    let headers = web_headers(r);
+    let chunked = |r: &mut Rng, b: &[u8]| {
+        let evs = chunks_at(b, &random_cuts(r, b.len()));
+        if r.chance(1, 2) { sprinkle(r, evs) } else { evs }
+    };
+    match r.below(20) {
+        0..=10 => {
+            let evs = chunked(r, &bytes);
+            case_stack(out, "stack.complete", shape, 200, &headers, &evs, &StackExpect::Status { payloads, st, in_headers: false });
+        }
+        11..=14 => {
+            // cut off at any byte; every third time exactly between two frames
+            let mut ends = vec![0usize];
+            for p in &payloads {
+                ends.push(ends.last().unwrap() + 5 + p.len());
+            }
+            let cut = if r.chance(1, 3) { *r.pick(&ends) } else { r.below(bytes.len() as u64) as usize };
+            let evs = if cut == 0 && r.chance(1, 2) { vec![] } else { chunked(r, &bytes[..cut]) };
+            if let Some(k) = ends.iter().position(|e| *e == cut) {
+                if k == 0 {
+                    // an empty body: tonic decides from the HTTP head (no grpc-status, 200 => OK, no messages)
+                    case_stack(out, "observe.stack.empty_body", shape, 200, &headers, &evs, &StackExpect::Observe);
+                } else {
+                    case_stack(out, "stack.cut_between_frames", shape, 200, &headers, &evs, &StackExpect::NoTrailers { payloads: payloads[..k].to_vec() });
+                }
+            } else {
+                case_stack(out, "stack.cut_inside_frame", shape, 200, &headers, &evs, &StackExpect::MustFail { payloads });
+            }
+        }
+        15 | 16 => {
+            // trailers-only: the status travels in the HTTP headers, the body is empty
+            let mut h = headers.clone();
+            h.extend(st.trailers());
+            let evs = if r.chance(1, 2) { vec![] } else { vec![E::P, E::D(vec![])] };
+            case_stack(out, "stack.trailers_only_headers", shape, 200, &h, &evs, &StackExpect::Status { payloads: vec![], st, in_headers: true });
+        }
+        17 | 18 => {
+            // malformed after the messages
+            let mut b = msgs.clone();
+            match r.below(3) {
+                0 => b.extend(frame(*r.pick(&[2u8, 3, 0x7f, 0x81, 0xff]), &gen_payload(r))),
+                1 => {
+                    b.extend(tframe(&trailers));
+                    b.extend(frame(0, b"late"));
+                }
+                _ => b.extend(frame(0x80, b"grpc-status:0\r\nno-colon-here\r\n")),
+            }
+            let evs = chunked(r, &b);
+            case_stack(out, "stack.malformed", shape, 200, &headers, &evs, &StackExpect::MustFail { payloads });
+        }
+        _ => {
+            // an HTTP error answer without a grpc-web body (a proxy): tonic maps the HTTP status
+            let http = *r.pick(&[400u16, 401, 403, 404, 429, 500, 502, 503, 504]);
+            case_stack(out, "observe.stack.http_error", shape, http, &headers, &[], &StackExpect::Observe);
+        }
+    }
+}
+fn stack_corpus(out: &mut OutB) {
+    let h = vec![(s("content-type"), b"application/grpc-web+proto".to_vec())];
+    let hi = frame(0, b"hi");
+    let nf = ServerStatus { code: 5, message: s("not found"), details: vec![], md: vec![] };
+    let full: Vec<u8> = [hi.clone(), tframe(&nf.trailers())].concat();
+    for shape in [0u8, 2] {
+        // F-C17j: the server answered "hi" and NOT_FOUND; the response is cut off exactly before the
+        // trailers frame.  Before c815a16a the caller saw OK.
+        case_stack(out, "corpus.stack.F-C17j", shape, 200, &h, &[E::D(full.clone())], &StackExpect::Status { payloads: vec![b"hi".to_vec()], st: nf.clone(), in_headers: false });
+        case_stack(out, "corpus.stack.F-C17j", shape, 200, &h, &[E::D(hi.clone())], &StackExpect::NoTrailers { payloads: vec![b"hi".to_vec()] });
+        case_stack(out, "corpus.stack.F-C17j", shape, 200, &h, &[E::D(hi[..3].to_vec()), E::P, E::D(hi[3..].to_vec())], &StackExpect::NoTrailers { payloads: vec![b"hi".to_vec()] });
+        // F-C17a/b/c/h at the caller: one chunk, colons in the message, repeated custom names, no CRLF
+        let st = ServerStatus { code: 9, message: s("a:b c: d"), details: vec![1, 2, 3], md: vec![(s("x-k"), b"1".to_vec()), (s("x-k"), b"2".to_vec()), (s("x-t-bin"), b"AAEC".to_vec())] };
+        let one: Vec<u8> = [hi.clone(), tframe(&st.trailers())].concat();
+        case_stack(out, "corpus.stack.status", shape, 200, &h, &[E::D(one.clone())], &StackExpect::Status { payloads: vec![b"hi".to_vec()], st: st.clone(), in_headers: false });
+        let ok = ServerStatus { code: 0, message: String::new(), details: vec![], md: vec![(s("x-k"), b"a:b".to_vec())] };
+        let okb: Vec<u8> = [hi.clone(), tframe(&ok.trailers())].concat();
+        case_stack(out, "corpus.stack.status", shape, 200, &h, &[E::D(okb[..9].to_vec()), E::D(okb[9..].to_vec())], &StackExpect::Status { payloads: vec![b"hi".to_vec()], st: ok, in_headers: false });
+        let mut unterminated = hi.clone();
+        unterminated.extend(frame(0x80, b"grpc-status:5\r\ngrpc-message:not%20found"));
+        case_stack(out, "corpus.stack.status", shape, 200, &h, &[E::D(unterminated)], &StackExpect::Status { payloads: vec![b"hi".to_vec()], st: nf.clone(), in_headers: false });
+        // cut inside the trailers frame / inside the payload
+        case_stack(out, "corpus.stack.cut", shape, 200, &h, &[E::D(full[..full.len() - 1].to_vec())], &StackExpect::MustFail { payloads: vec![b"hi".to_vec()] });
+        case_stack(out, "corpus.stack.cut", shape, 200, &h, &[E::D(hi[..6].to_vec())], &StackExpect::MustFail { payloads: vec![b"hi".to_vec()] });
+    }
+}
+
+/// `current_trailers.extend(trailers)`: the in-body trailers frame holds `n` distinct names, the
+/// wrapped body then yields HTTP trailers with one name
+fn extend_capacity(out: &mut OutB) {
+    for (n, fresh) in [(24_575u32, true), (24_575, false), (24_576, true), (24_576, false), (1, true), (1, false)] {
+        let mut blk = Vec::with_capacity(n as usize * 9);
+        for i in 0..n {
+            blk.push(b'x');
+            let mut k = i;
+            for _ in 0..4 {
+                blk.push(b'a' + (k % 26) as u8);
+                k /= 26;
+            }
+            blk.extend_from_slice(b":1\r\n");
+        }
+        let name = if fresh { s("y") } else { s("xaaaa") };
+        let o = run_client(&[E::D(frame(0x80, &blk)), E::T(vec![(name, b"2".to_vec())])]);
+        let obs = match o.items.first() {
+            Some(Item::Trailers(t)) => Tr::L(vec![Tr::n(1u8), Tr::n(t.keys_len() as u64)]),
+            Some(Item::Panic) => Tr::L(vec![Tr::n(99u8)]),
+            other => Tr::L(vec![Tr::n(50u8), Tr::s(&format!("{:?}", other.map(|i| i.tr())))]),
+        };
+        out.hist("client.outcome", if o.items.first() == Some(&Item::Panic) { "panic" } else { "end" });
+        out.push(Case {
+            kind: "observe.header_map_extend_capacity".into(),
+            input: json!({"distinct_names_in_trailers_frame": n, "http_trailer_name_is_new": fresh}),
+            model: format!("obs_extend_capacity {} {}", n, fresh),
+            impl_obs: obs,
+            oracle: None,
+            nontrivial: true,
+        });
+    }
 }
 
 fn corpus(out: &mut OutB) {
@@ -1305,7 +2123,19 @@ fn corpus(out: &mut OutB) {
     case_client(out, "corpus.empty_body", &[E::P, E::D(vec![]), E::P], &Expect::Boundary { msgs: vec![] });
     case_client(out, "corpus.trailers_only", &[E::D(tframe(&t5))], &Expect::Valid { msgs: vec![], trailers: t5.clone() });
     case_client(out, "corpus.empty_trailers_frame", &[E::D(hi.clone()), E::D(tframe(&[]))], &Expect::Valid { msgs: hi.clone(), trailers: vec![] });
-    case_client(out, "corpus.no_trailers_frame", &[E::D(hi.clone())], &Expect::Boundary { msgs: hi.clone() });
+    // F-C17j (fixed by c815a16a): message frames but no trailers frame is an error, not a clean end
+    case_client(out, "corpus.F-C17j", &[E::D(hi.clone())], &Expect::Boundary { msgs: hi.clone() });
+    case_client(out, "corpus.F-C17j", &[E::D(hi[..4].to_vec()), E::P, E::D(hi[4..].to_vec()), E::P], &Expect::Boundary { msgs: hi.clone() });
+    let two_frames: Vec<u8> = [hi.clone(), frame(1, b"")].concat();
+    case_client(out, "corpus.F-C17j", &[E::D(two_frames.clone())], &Expect::Boundary { msgs: two_frames.clone() });
+    case_client(out, "corpus.F-C17j", &[E::D(hi.clone()), E::D(frame(1, b""))], &Expect::Boundary { msgs: two_frames.clone() });
+    // ... HTTP trailers of the wrapped body count as trailers
+    case_client(
+        out,
+        "corpus.F-C17j",
+        &[E::D(hi.clone()), E::T(t5.clone())],
+        &Expect::Valid { msgs: hi.clone(), trailers: t5.clone() },
+    );
     // a complete frame is held back while the next one is incomplete, then everything arrives
     let two: Vec<u8> = [hi.clone(), frame(1, b"world")].concat();
     case_client(
@@ -1432,7 +2262,22 @@ fn main() {
         let v: Value = serde_json::from_str(&std::fs::read_to_string(f).unwrap()).unwrap();
         let kind = v["kind"].as_str().unwrap_or("replay").to_string();
         let inp = &v["input"];
-        if let Some(evs) = inp.get("evs") {
+        if let Some(st) = inp.get("stack") {
+            let evs: Vec<E> = st["evs"].as_array().unwrap().iter().map(ev_from_json).collect();
+            case_stack(
+                &mut out,
+                &kind,
+                st["shape"].as_u64().unwrap_or(2) as u8,
+                st["http"].as_u64().unwrap_or(200) as u16,
+                &pairs_from_json(&st["headers"]),
+                &evs,
+                &stack_expect_from(&st["expect"]),
+            );
+        } else if let (Some(evs), Some(mode)) = (inp.get("evs"), inp.get("eos_mode")) {
+            let evs: Vec<E> = evs.as_array().unwrap().iter().map(ev_from_json).collect();
+            let m = mode.as_u64().unwrap_or(1) as u8;
+            case_client_hyper(&mut out, &kind, &evs, m, m != 2);
+        } else if let Some(evs) = inp.get("evs") {
             let evs: Vec<E> = evs.as_array().unwrap().iter().map(ev_from_json).collect();
             case_client(&mut out, &kind, &evs, &expect_from_json(&inp["expect"]));
         } else if let Some(evs) = inp.get("req_evs") {
@@ -1445,7 +2290,9 @@ fn main() {
     }
 
     corpus(&mut out);
+    stack_corpus(&mut out);
     header_map_limit(&mut out);
+    extend_capacity(&mut out);
     let mined = mined_sizes(&mut out, &mut r, a.thorough);
 
     let t = a.thorough;
@@ -1478,8 +2325,8 @@ fn main() {
     single_cuts(&mut out, "chunking.single_cut", &fixed, &mut r, false);
     double_cuts(&mut out, "chunking.double_cut", &fixed, &mut r, if t { 10_000 } else { 300 });
     truncations(&mut out, &fixed, &mut r);
-    let (n_single, n_double, n_trunc, n_rand, n_mal, n_inner, n_req) =
-        if t { (60, 30, 60, 6000, 3000, 1200, 300) } else { (4, 2, 4, 500, 300, 120, 40) };
+    let (n_single, n_double, n_trunc, n_rand, n_mal, n_inner, n_req, n_stack) =
+        if t { (60, 30, 60, 6000, 3000, 1200, 300, 5000) } else { (4, 2, 6, 500, 300, 160, 40, 450) };
     for _ in 0..n_single {
         let b = gen_body(&mut r);
         single_cuts(&mut out, "chunking.single_cut", &b, &mut r, true);
@@ -1508,6 +2355,10 @@ fn main() {
     for _ in 0..n_inner {
         inner_events(&mut out, &mut r);
     }
+    // ---- the caller's view: tonic's client::Grpc over the layer --------------------------------
+    for _ in 0..n_stack {
+        stack_case(&mut out, &mut r);
+    }
     // ---- Body::is_end_stream as a hyper-like consumer uses it --------------------------------
     let n_eos = if t { 1500 } else { 150 };
     {
@@ -1523,13 +2374,21 @@ fn main() {
         case_client_hyper(&mut out, "corpus.F-C17i", &[E::D(tframe(&t0))], 1, true);
         // the minimal replay of the finding: frame(1, "") and an empty trailers frame in one chunk
         case_client_hyper(&mut out, "corpus.F-C17i", &[E::D(vec![1, 0, 0, 0, 0, 0x80, 0, 0, 0, 0])], 1, true);
+        // F-C17j: after the frames of a body without trailers frame an error is still to come
+        case_client_hyper(&mut out, "corpus.F-C17j", &[E::D(hi.clone())], 1, true);
+        case_client_hyper(&mut out, "corpus.F-C17j", &[E::D(hi.clone()), E::D(frame(1, b"x"))], 1, true);
     }
     for _ in 0..n_eos {
         let b = gen_body(&mut r);
         let bytes = b.bytes();
         let cuts = random_cuts(&mut r, bytes.len());
         let evs = chunks_at(&bytes, &cuts);
-        let evs = if r.chance(1, 2) { sprinkle(&mut r, evs) } else { evs };
+        let mut evs = if r.chance(1, 2) { sprinkle(&mut r, evs) } else { evs };
+        if r.chance(1, 6) {
+            // a body that stops early (between frames, inside a frame): the error must not be hidden
+            let keep = r.below(evs.len() as u64 + 1) as usize;
+            evs.truncate(keep);
+        }
         match r.below(4) {
             0 => case_client_hyper(&mut out, "eos.client_never", &evs, 0, true),
             1 => case_client_hyper(&mut out, "observe.eos_client_inner_breaks_contract", &evs, 2, false),
@@ -1553,7 +2412,7 @@ fn main() {
 
     out.finish(
         IMPORTS,
-        "client response bodies through the real GrpcWebClientService: corpus (witnesses F-C17a..g, edges), every chunking (all 2^(n-1) cut sets) of small bodies, every single cut and all/many double cuts of generated bodies, random bodies (0-4 message frames, flags 0/1, payloads 0..40 and some 64..200, trailers with grpc-status / grpc-message containing ':' and spaces / repeated x-k / -bin values) with random cut sets, Pending anywhere and empty chunks, truncation at every byte (inside a frame: must fail; between frames: recorded), malformed stream (bad flags, stray bytes, data or a second trailers frame after the trailers, bad trailer lines, wrong length prefixes), inner body errors and HTTP trailers. Oracle: bytes and trailers that were encoded by the harness itself. Non-trivial = non-empty body; distinct = distinct (kind, model expression).",
+        "client response bodies through the real GrpcWebClientService: corpus (witnesses F-C17a..j, edges), every chunking (all 2^(n-1) cut sets) of small bodies, every single cut and all/many double cuts of generated bodies, random bodies (0-4 message frames, flags 0/1, payloads 0..40 and some 64..200, trailers with grpc-status / grpc-message containing ':' and spaces / repeated names / random token names over the whole HeaderName alphabet / values of any legal HeaderValue bytes) with random cut sets, Pending anywhere and empty chunks, truncation at every byte (must fail, frame boundaries included; only the empty body may end cleanly), malformed stream (bad flags, stray bytes, data or a second trailers frame after the trailers, bad trailer lines, wrong length prefixes), inner body errors and HTTP trailers (merged), Body::size_hint before every poll; kinds stack.*: the same bodies read by tonic::client::Grpc (unary / server_streaming) over the layer, judged by the status, messages and metadata the CALLER sees. Oracle: bytes, trailers and statuses that were encoded by the harness itself. Non-trivial = non-empty body; distinct = distinct (kind, model expression).",
         json!({"mined_size_thresholds": mined}),
     );
 }
